@@ -405,7 +405,13 @@ type Tables struct {
 func main() {
 	repo := flag.String("repo", envOr("VERIF_REPO", "/repo"), "repository root")
 	out := flag.String("out", "/verif", "verif root")
+	astcmp := flag.String("astcmp", "", "generatedDir,shippedDir: compare file sets and syntax trees, then exit")
 	flag.Parse()
+	if *astcmp != "" {
+		parts := strings.SplitN(*astcmp, ",", 2)
+		astCompare(parts[0], parts[1])
+		return
+	}
 	t := &Tables{PkgWrapped: map[string]string{}}
 	implDir := filepath.Join(*repo, "streams", "impl")
 	vocabs, err := os.ReadDir(implDir)
@@ -429,6 +435,18 @@ func main() {
 				}
 			}
 		}
+	}
+	{
+		seen := map[string]bool{}
+		var prefixes []string
+		for _, ti := range t.Types {
+			if ti.VocabPfx != "" && !seen[ti.VocabPfx] {
+				seen[ti.VocabPfx] = true
+				prefixes = append(prefixes, ti.VocabPfx)
+			}
+		}
+		sort.Strings(prefixes)
+		checkPendingDeser(prefixes)
 	}
 	sort.Slice(t.Types, func(i, j int) bool {
 		if t.Types[i].Name != t.Types[j].Name {
